@@ -557,6 +557,50 @@ def explore(binary, bdir, tier, seed, progs, variants, nseeds, st, rep, prop, on
     return refs + jobs, list(ref_res) + list(res), dropped
 
 
+def determinism_selftest(binary, seed, nprog, nseeds):
+    """Every job is executed three times, in fresh processes at GOMAXPROCS 1, 4 and 16; schedule and map-order
+    fingerprints, step counts and verdicts must be identical. Returns (jobs compared, mismatching jobs, detail)."""
+    rng = Rng(seed ^ 0xD373)
+    base = []
+    for pi in range(nprog):
+        prog = sysa.gen_program(seed + 6, pi)
+        for si in range(nseeds):
+            kind, opts = rng.pick([("taint", {}), ("taint", {"summarize-on-demand": True}), ("backtrace", {}),
+                                   ("taint", {"use-escape-analysis": True})])
+            o = {"log-level": 1}
+            o.update(opts)
+            base.append((kind, prog, o, sysa.swarm_params(rng)))
+    jobs = []
+    for bi, (kind, prog, o, p) in enumerate(base):
+        for gmp in ("1", "4", "16"):
+            j = sysa.make_job(len(jobs), kind, prog, o, p)
+            j["_env"], j["_base"], j["_prog"] = {"GOMAXPROCS": gmp}, bi, prog["name"]
+            jobs.append(j)
+    res = run_jobs(binary, jobs, timeout=REF_TIMEOUT * 2)
+    groups = collections.defaultdict(list)
+    for j, r in zip(jobs, res):
+        if r is None or r.get("timeout") or sysa.classify_hard(r):
+            groups[j["_base"]].append(None)
+            continue
+        sim = r.get("sim") or {}
+        groups[j["_base"]].append(json.dumps([sim.get("sched_fp"), sim.get("map_fp"), sim.get("steps"), sim.get("tape_used"),
+                                              r.get("flows"), r.get("escapes"), r.get("traces"), bool(r.get("err")),
+                                              bool(r.get("panic"))], sort_keys=True))
+    compared = mism = 0
+    detail = []
+    for bi, vals in groups.items():
+        if any(v is None for v in vals):
+            continue
+        compared += 1
+        if len(set(vals)) != 1:
+            mism += 1
+            verdicts = set(json.dumps(json.loads(v)[4:]) for v in vals)
+            if len(detail) < 3:
+                detail.append({"program": base[bi][1]["name"], "options": base[bi][2], "variants": len(set(vals)),
+                               "verdict_differs": len(verdicts) > 1, "base": bi})
+    return compared, mism, detail, base
+
+
 def check_c06(tier, seed):
     t0 = time.time()
     rep = Report("C06")
@@ -672,7 +716,22 @@ def check_c06(tier, seed):
                 timeout=1500, max_steps=20000000)
         corpus_runs = st.runs - n0
     nonempty = sum(1 for j, r in zip(jobs, res) if j.get("_ref") and r and (r.get("flows") or r.get("traces")))
+    dn = (6, 3) if tier == "quick" else (40, 5)
+    dcomp, dmis, ddetail, dbase = determinism_selftest(binary, seed, *dn)
+    for dd in ddetail:
+        if dd["verdict_differs"]:
+            # the same tape gave two verdicts: nondeterminism outside the simulator's seams. It is a C06 violation, and
+            # by its nature its replay may not reproduce (replays: false).
+            kind, prog, o, p = dbase[dd["base"]]
+            j = sysa.make_job(0, kind, prog, o, p)
+            j["_prog"], j["_variant"] = prog["name"], "same-tape"
+            sig = "verdict differs between executions of the same tape (nondeterminism outside the simulator's seams)"
+            rep.violation(sig, replay_payload("C06", j, sig, "replays: false by nature"), "sametape-%s" % prog["name"])
+        else:
+            rep.inconclusive.append("determinism self-test: event logs differ between processes for the same tape: %r" % dd)
     cov = st.coverage(RULE_A, {"programs": nprog, "variants": [v[0] for v in variants], "seeds_per_variant": nseeds,
+                               "determinism_selftest": {"jobs_compared_across_3_processes_GOMAXPROCS_1_4_16": dcomp,
+                                                        "mismatches": dmis},
                                "reference_runs_with_nonempty_verdict": nonempty, "corpus_runs": corpus_runs, "runs_with_internal_pointer_map_orders_permuted": ptr_runs,
                                "runs_at_critical_unsafe_max_depth": crit_runs,
                                "dropped": dict(dropped), "observations": dict(observations),
